@@ -13,7 +13,7 @@ import itertools, random
 from . import common as C, progrun as R
 
 PROP = "C14"
-MODULES = ["RuschmProofs.C14"]
+MODULES = ["RuschmProofs.C14", "RuschmProofs.C14Model"]
 LEAF_KINDS = ["missing", "wrongname", "broken", "unreadable"]
 
 
